@@ -202,3 +202,14 @@ Definition cv_string_unique_cell_refetch (woff : Z -> option nat) (total : Z) (w
              (cell_loop woff total cell 0 (S len) [] (fun bs => Tick (Ret (Some (set_last0 bs)))))))) in
   Tick (with_cell woff cell (Ret None) (fun o1 => Tick (strlen_prog (w - o1) o1 0 after_len))).
 
+(* copy_and_verify on a pointer-to-STRUCT cell of sandbox memory: cv.struct.read ; ONE fetch of the cell (a read
+   notification: the adversary moves right before it, and would before any further fetch) ; the struct image the fetched
+   value designates is read ; cv.struct.verifier.  A null cell is dereferenced (the code has no null test here): fault *)
+Definition cv_struct_ptr_cell (woff : Z -> option nat) (elsz cell : nat) : prog (list Z) :=
+  Tick (Tick (rd_bytes cell 4 [] (fun bs =>
+    let r := le4 bs in
+    if r =? 0 then Flt else
+    match woff r with
+    | None => Flt
+    | Some o => rd_bytes o elsz [] (fun e => Tick (Ret e))
+    end))).
